@@ -82,9 +82,7 @@ func init() {
 		return m.C.Bool(v == 1)
 	}
 	harnessAPI["vfAssume"] = func(m *Machine, args []Value) Value {
-		if !m.Decide(m.asTerm(args[0])) {
-			m.abort("assume-false", "")
-		}
+		m.Assume(m.asTerm(args[0]))
 		return nil
 	}
 	harnessAPI["vfCheck"] = func(m *Machine, args []Value) Value {
